@@ -22,6 +22,7 @@ func C03(c *Ctx) {
 	r.Rule("R03.1", "proofs before execution: in processExecuteEvent verifyProofs precedes ApplyTransactions on every path; inside verifyProofs the only returns taken before the verification goroutines are joined lie behind the enumerated edges (genesis height 1, empty block, block.Extra marker - which no code of the repository sets); every CheckProof call is executed for each element of its loop (no path back to the loop head that skips it).")
 	r.Rule("R03.7", "the verification groups cover the block: the per-group length is len(txs)/groupNum (integer division rounds down), so some group's slice of the block has to be open-ended or end at len(txs) - otherwise the len(txs) % groupNum transactions at the tail of a block are executed without any proof check; every group slice starts at i*groupLen.")
 	r.Rule("R03.8", "the verdict comes from the ledger of this call: no function reachable from VerifyPool.CheckProof reads (Load / Range / lookup / index) a container field of the VerifyPool (sync.Map, map, slice, cache) that is filled after construction; appchain record, trust root, validator set and rule address are read from the ledger in the same invocation, so a verdict never rests on what an earlier block stored.")
+	r.Rule("R03.9", "what is signed is what is executed: the digest of EncodePackedAndHash - signed by the validators of a relay chain and recomputed by verifyMultiSign - is built from ibtp.From, ibtp.To, ibtp.Index, ibtp.Type, the payload hash and the transaction status; a component that does not flow into the Keccak256 preimage can be changed without invalidating the signatures.")
 	r.Rule("R03.2", "rejection contract: every `return false, ..` of a CheckProof implementation carries a provably non-nil error, because the consumer records err.Error() as invalid reason without a nil test; in the consumer the !ok branch stores the invalid reason for that index.")
 	r.Rule("R03.3", "invalid reason short-circuits execution: in applyBxhTransaction every VM entry lies behind the invalidReason == \"\" edge.")
 	r.Rule("R03.4", "proof binding: in verifyProof the rule engine and the multi-signature check are reachable only across bytes.Equal(sha256(proof), ibtp.Proof) == true and proof != nil; the rule address given to Validate comes from getValidateAddress(chainID); getValidateAddress selects a rule only across the edge Status == GovernanceAvailable.")
@@ -155,6 +156,7 @@ func C03(c *Ctx) {
 	}
 
 	c.c03NoMemo()
+	c.c03Digest()
 
 	// ---- R03.2
 	cha := core.NewCHA(c.P)
@@ -738,4 +740,50 @@ func (c *Ctx) c03NoMemo() {
 	}
 	r.OK("R03.8", "verification path analysed", c.P.Pos(cp.Pos()), fmt.Sprintf("%d functions of pkg/proof reachable from CheckProof, %d container fields of VerifyPool", len(reach), len(names)))
 	r.Floor("R03.8", "functions reachable from CheckProof", len(reach), 3)
+}
+
+// preimageFields: the fields of the IBTP (or of values decoded from it) and the parameters that flow into the
+// argument of the hash call of fn (through appends, conversions and helper calls).
+func preimageFields(fn *ssa.Function, isHash func(ssa.CallInstruction) bool) (fields map[string]bool, params map[string]bool, n int) {
+	fields, params = map[string]bool{}, map[string]bool{}
+	for _, call := range core.Calls(fn) {
+		if !isHash(call) || len(call.Common().Args) == 0 {
+			continue
+		}
+		n++
+		core.Mentions(call.Common().Args[0], func(v ssa.Value) bool {
+			if _, f, _, ok := core.FieldOf(v); ok {
+				fields[f] = true
+			}
+			if p, ok := v.(*ssa.Parameter); ok {
+				params[p.Name()] = true
+			}
+			return false
+		})
+	}
+	return
+}
+
+// c03Digest: R03.9.
+func (c *Ctx) c03Digest() {
+	r := c.R
+	fn := c.fn("R03.9", "pkg/utils.EncodePackedAndHash")
+	if fn == nil {
+		return
+	}
+	fields, params, n := preimageFields(fn, func(call ssa.CallInstruction) bool {
+		return strings.HasSuffix(core.CalleeName(call), "crypto.Keccak256")
+	})
+	r.Floor("R03.9", "hash calls in EncodePackedAndHash", n, 1)
+	var missing []string
+	for _, f := range []string{"From", "To", "Index", "Type", "Hash"} {
+		if !fields[f] {
+			missing = append(missing, "ibtp."+f)
+		}
+	}
+	if !params["txStatus"] {
+		missing = append(missing, "txStatus")
+	}
+	r.Check(len(missing) == 0, "R03.9", "EncodePackedAndHash: the signed digest covers source, destination, index, type, payload hash and status", c.P.Pos(fn.Pos()), "all six components flow into the Keccak256 preimage",
+		"the digest that the validators of a relay chain sign (and verifyMultiSign recomputes) no longer contains "+strings.Join(missing, ", ")+": a multi-signature collected for one IBTP verifies for another IBTP that differs only in that component (e.g. a success receipt presented as a failure receipt)")
 }
